@@ -23,13 +23,32 @@ def handle (tb : Tables) (c impl : T) : String :=
          | _ => false
        verdict impl cur [{ flag := "D21", onInCur := cfgCur.sampleAfterLookahead, obs := alt }] specOk
      | _, _, _ => "bad-op")
+  | .node "c07op" [src, off, len] =>
+    -- the location of "'x' is not a valid executable operation type" for a top-level word at src[off, off+len)
+    (match src.asChars, off.asNat, len.asNat with
+     | some src, some off, some len =>
+       let cfgOp : Cfg := { sampleAfterLookahead := tb.opErrPosAfterLookahead }
+       -- at end of input there is no look-ahead byte to consume: the as-coded form then samples after the token only
+       let atEof := decide (src.length ≤ off + len)
+       let locOf (c : Cfg) : Int × Int :=
+         if c.sampleAfterLookahead && atEof then
+           let p := after (src.take (off + len)); (p.line, (p.col : Int) - len)
+         else fieldLoc c src off len
+       let cur := encLoc (locOf cfgOp)
+       let alt := encLoc (locOf { sampleAfterLookahead := !cfgOp.sampleAfterLookahead })
+       let specOk : Bool := match impl with
+         | .node "loc" [l, c] => (match l.asInt, c.asInt with | some l, some c => locOk src off (l, c) | _, _ => false)
+         | _ => false
+       verdict impl cur [{ flag := "D64", onInCur := cfgOp.sampleAfterLookahead, obs := alt }] specOk
+     | _, _, _ => "bad-op")
   | .node "c07env" [] =>
     -- (env keysOk errorsNonEmpty msgsOk pathsOk locsPositive rejectedNoData jsonOk)
     (match impl with
      | .node "env" [k, e, m, p, l, r, j] =>
        let t := T.ofBool true
        if k == t && e == t && m == t && p == t && r == t && j == t then
-         (if l == t then "ok" else if cfgCur.sampleAfterLookahead then "dev D21" else "mismatch spec-bad (env …)")
+         (if l == t then "ok" else if cfgCur.sampleAfterLookahead then "dev D21"
+          else if tb.opErrPosAfterLookahead then "dev D64" else "mismatch spec-bad (env …)")
        else "mismatch spec-bad (env true true true true true true true)"
      | _ => "bad-op")
   | .node "c07json" [txt] =>
@@ -43,6 +62,7 @@ def handle (tb : Tables) (c impl : T) : String :=
      | _, _ => "bad-op")
   | _ => "bad-op"
 
-def flags (tb : Tables) : List (String × Bool) := [("D21", (cfgCurOf tb).sampleAfterLookahead)]
+def flags (tb : Tables) : List (String × Bool) :=
+  [("D21", (cfgCurOf tb).sampleAfterLookahead), ("D64", tb.opErrPosAfterLookahead)]
 
 end Ggql.Driver.C07
